@@ -257,6 +257,60 @@ def arm_directed(bad, nvec, thorough):
 
         add("aregargs.%d.%s" % (n, t), make, [t] * n, "%d register arguments of type %s combined non-commutatively" % (n, t),
             [[k + 2 for k in range(n)]])
+    # values live across calls: n values computed before, two calls of a callee that needs many registers / itself calls a
+    # 4-argument function / takes k arguments (optionally through a chain of depth 2 - 3), every value observed afterwards
+    def make_live(n, callee, depth):
+        from ppci import ir
+
+        b = B("k4", "i32", ["i32", "i32", "i32", "i32"])
+        a0, a1, a2, a3 = b.p
+        b.ret(b.bin(b.bin(b.bin(a0, "*", b.c(2, "i32"), "i32"), "-", a1, "i32"), "+", b.bin(b.bin(a2, "*", b.c(3, "i32"), "i32"), "^", a3, "i32"), "i32"))
+        k4 = b.f
+        mod = b.m
+        if callee == "g4":          # calls a 4-argument function
+            bg = B("g", "i32", ["i32"], module=mod)
+            x = bg.p[0]
+            r = bg.e(ir.FunctionCall(k4, [x, bg.bin(x, "+", bg.c(1, "i32"), "i32"), bg.bin(x, "^", bg.c(5, "i32"), "i32"), bg.c(7, "i32")],
+                                     bg.nm("call"), ir.i32))
+            bg.ret(bg.bin(r, "+", x, "i32"))
+            g, nargs = bg.f, 1
+        elif callee == "big":       # a leaf with seven values live at once
+            bg = B("g", "i32", ["i32"], module=mod)
+            x = bg.p[0]
+            vs = [bg.bin(x, "+", bg.c(11 * (k + 1), "i32"), "i32") for k in range(7)]
+            acc = bg.bin(vs[0], "*", vs[1], "i32")
+            for k in range(2, 7):
+                acc = bg.bin(bg.bin(acc, "-", vs[k], "i32"), "^", vs[k - 1], "i32")
+            bg.ret(bg.bin(acc, "+", vs[0], "i32"))
+            g, nargs = bg.f, 1
+        else:                       # "k1" .. "k4": k arguments, the callee itself calls k4
+            nargs = int(callee[1])
+            bg = B("g", "i32", ["i32"] * nargs, module=mod)
+            ps = list(bg.p) + [bg.c(3 + k, "i32") for k in range(4 - nargs)]
+            r = bg.e(ir.FunctionCall(k4, ps, bg.nm("call"), ir.i32))
+            bg.ret(bg.bin(r, "-", bg.p[0], "i32"))
+            g = bg.f
+        for d in range(depth - 1):  # a chain: m_d(x...) = g(x...) * 3 + x
+            bm = B("m%d" % d, "i32", ["i32"] * nargs, module=mod)
+            r = bm.e(ir.FunctionCall(g, list(bm.p), bm.nm("call"), ir.i32))
+            bm.ret(bm.bin(bm.bin(r, "*", bm.c(3, "i32"), "i32"), "+", bm.p[0], "i32"))
+            g = bm.f
+        bf = B("f", "i32", ["i32", "i32"], module=mod)
+        x, y = bf.p
+        live = [bf.bin(bf.bin(x, "*", bf.c(2 * k + 3, "i32"), "i32"), "-", bf.bin(y, "^", bf.c(k + 1, "i32"), "i32"), "i32") for k in range(n)]
+        r1 = bf.e(ir.FunctionCall(g, [x, y, x, y][:nargs], bf.nm("call"), ir.i32))
+        r2 = bf.e(ir.FunctionCall(g, [y, x, y, x][:nargs], bf.nm("call"), ir.i32))
+        acc = bf.bin(r1, "-", r2, "i32")
+        for k, v in enumerate(live):
+            acc = bf.bin(bf.bin(acc, "*", bf.c(5, "i32"), "i32"), "-" if k % 2 else "+", v, "i32")
+        bf.ret(acc)
+        return mod
+
+    combos = [(n, c, d) for n in (1, 2, 3, 4, 5, 6) for c in ("g4", "big", "k1", "k2", "k3", "k4") for d in (1, 2, 3)] if thorough else \
+        [(1, "g4", 1), (3, "g4", 1), (5, "g4", 2), (2, "big", 1), (4, "big", 1), (6, "big", 3), (1, "k1", 1), (3, "k2", 2), (2, "k3", 1), (4, "k4", 1)]
+    for n, c, d in combos:
+        add("alive.%d.%s.%d" % (n, c, d), lambda n=n, c=c, d=d: make_live(n, c, d), ["i32", "i32"],
+            "%d values live across two calls of %s (chain depth %d), all observed afterwards" % (n, c, d), [[100, 7], [-5, 9]])
     add("acall4", make_fp, ["i32", "i32"], "h(h(x, y, 3, y), x, y, 5) ^ h(x, y, 3, y): four register arguments, live values across calls",
         [[100, 7], [-5, 9]])
     return out
